@@ -264,6 +264,7 @@ def cases(draw, plugin=False):
                                     unique=True))
         case["plugin"] = {"field_stems": field_stems, "check_stems": check_stems,
                           "files": draw(st.sampled_from([1, 1, 2])),
+                          "how": draw(st.sampled_from(["import_plugins", "user-code-after-first-cid"])),
                           "module": draw(st.sampled_from(["myplugins", "c20_recording_plugins"]))}
     for index, kind in enumerate(kinds):
         type_name = draw(st.sampled_from(field_stems)) if plugin else "Rec"
@@ -719,7 +720,16 @@ def mark(*what):
 
 with open(sys.argv[3], "r", encoding="utf-8") as case_file:
     case = json.load(case_file)
-interface.import_plugins(sys.argv[2])
+if case.get("how") == "user-code-after-first-cid":
+    # the user's own module defines the classes after some CID has already been created in this process
+    warm = interface.Cid()
+    warm.read("warm", [["D", "Format", "Delimited"], ["F", "x"]])
+    import importlib
+    sys.path.insert(0, sys.argv[2])
+    for module_name in case["modules"]:
+        importlib.import_module(module_name)
+else:
+    interface.import_plugins(sys.argv[2])
 cid = interface.Cid()
 cid.read("c20", case["cid_rows"])
 resolved = {"fields": [[type(f).__name__, type(f).__module__] for f in cid.field_formats],
@@ -750,7 +760,8 @@ def check_plugin_case(sub, case):
             f.write(_DRIVER % {"execute_runs": inspect.getsource(execute_runs)})
         case_path = os.path.join(folder, "case.json")
         with open(case_path, "w", encoding="utf-8") as f:
-            json.dump({"cid_rows": cid_rows(case), "runs": case["runs"]}, f)
+            json.dump({"cid_rows": cid_rows(case), "runs": case["runs"], "modules": sorted(sources),
+                       "how": plugin.get("how", "import_plugins")}, f)
         env = dict(os.environ, PYTHONDONTWRITEBYTECODE="1", PYTHONHASHSEED="0")
         env.pop("PYTHONPATH", None)
         try:
@@ -794,6 +805,7 @@ def check_plugin_case(sub, case):
                          "check type %r resolved to %s.%s" % (check["type"], module_name, class_name))
         sub.cls("plugin:subprocess")
         sub.cls("plugin:files:%d" % plugin["files"])
+        sub.cls("plugin:how:%s" % plugin.get("how", "import_plugins"))
         judge(sub, case, split_log(log, len(case["runs"])), outcomes)
     finally:
         shutil.rmtree(folder, ignore_errors=True)
